@@ -237,9 +237,10 @@ def _writes_through(repo, module, fn, seed_of, params_alias=(), depth=3):
     return out
 
 
-def _mutates_param(repo, module, fn, pname, depth=3, _cache={}):
+def _mutates_param(repo, module, fn, pname, depth=3):
     """'line N: what' of a write *through* parameter ``pname`` of helper ``fn``, or None."""
-    key = (id(repo), module.relpath, fn.name, fn.lineno, pname)
+    _cache = repo.__dict__.setdefault("_c04_mutates_cache", {})  # per Repo object (ids of collected repos are reused)
+    key = (module.relpath, fn.name, fn.lineno, pname)
     if key in _cache:
         return _cache[key]
     _cache[key] = None
